@@ -1,1 +1,2 @@
 import Vflow.Props.C19
+import Vflow.Props.C14
